@@ -194,6 +194,10 @@ class Engine:
                         # self type = type of the first parameter
                         pt=b.params[0][1] if b.params else ''
                         ty=last_ident(pt) if pt else ty
+                        if m.group(2)=='deserialize':
+                            # no self parameter: the implementing type is the Ok type of the result
+                            mr=re.match(r'^(?:std::result::)?Result<(.*)>$',b.ret.strip())
+                            if mr: ty=last_ident(re.sub(r"<'[a-z_]+>$",'',split_top(mr.group(1))[0].strip()))
                         self.nested_impls[(tr,ty,m.group(2))].append(b)
                         continue
                     self.impl_index[(tr,ty,m.group(2))].append(b)
@@ -216,8 +220,8 @@ class Engine:
         self.resolve_cache={}
         self.const_cache={}
         self.log_enabled=False
-        from . import models as _m, models_json as _mj, models_serde as _ms, models_der as _md
-        _md.register(self); _ms.register(self); _mj.register(self); _m.register_all(self)
+        from . import models as _m, models_json as _mj, models_serde as _ms, models_der as _md, models_de as _mde
+        _md.register(self); _mde.register(self); _ms.register(self); _mj.register(self); _m.register_all(self)
 
     # ---------------------------------------------------------------- registration
     def model(self,pattern,fn,name=None):
@@ -395,7 +399,7 @@ class Engine:
                         break
                     elif k=='goto': nxt=st[1]; break
                     elif k=='switch':
-                        v=self.operand(run,locs,st[1],body)
+                        v=self.operand(run,locs,st[1],body); run.last_switch=(v,st[1])
                         nxt=self.switch(run,v,st[2]); break
                     elif k=='drop': nxt=st[2]['return']; break
                     elif k=='return':
@@ -408,7 +412,7 @@ class Engine:
                         if not run.branch_bool(c,'assert'):
                             raise Panic('%s: assert %s'%(body.name,(msg[0] if msg else '')[:60]),'assert')
                         nxt=tg['success']; break
-                    elif k=='unreachable': raise Panic('unreachable in '+body.name,'unreachable')
+                    elif k=='unreachable': raise Panic('unreachable in '+body.name+' after switch on '+repr(getattr(run,'last_switch',None))[:120],'unreachable')
                     elif k=='setdisc':
                         r=self.place_ref(run,locs,st[1],body); v=r.get()
                         if isinstance(v,Agg) and v.variant==st[2]: pass
@@ -522,6 +526,16 @@ class Engine:
             from . import parse as _p
             st=_p.ALLOC_STATICS.get(m.group(1))
             if st: return Ref(Cell(Opaque('static:'+st.split('::')[-1])))
+        mlit=re.match(r'^(.*?)\s*\{\{(.*)\}\}$',s)
+        if mlit:
+            # constant struct literal: `Path {{ field: value, .. }}`
+            nm=strip_generics(mlit.group(1).strip()); inner=mlit.group(2).strip()
+            fields=[]
+            if inner:
+                for fld in split_top(inner):
+                    val=fld.split(':',1)[1].strip() if ':' in fld else fld
+                    fields.append(Agg('PhantomData',[]) if val.startswith('PhantomData') else self.const(run,val,body))
+            return Agg(self.src.qualify(nm.split('::')[-1],nm),fields)
         if re.match(r'^[A-Za-z_][A-Za-z0-9_:<>\' ,]*$',s):
             key=strip_generics(s)
             last=key.split('::')[-1]
@@ -533,6 +547,7 @@ class Engine:
                 return Agg(parts[-2],[],self.enums[parts[-2]].index(last),last)
             if last in self.src.structs and not self.src.structs[last]: return Agg(last,[])
             if last in ('RangeFull','PhantomData'): return Agg(last,[])
+            if re.match(r'^(__)?[A-Z][A-Za-z0-9_]*$',last) and last.upper()!=last: return Agg(self.src.qualify(last,key),[])
             return Opaque('const:'+key)
         return Opaque('const:'+s)
 
@@ -601,6 +616,11 @@ class Engine:
         if prev is not None:
             if 'serde_json' in parts and prev=='Value':
                 tab=self.enums['serde_json::Value']; return Agg('serde_json::Value',fields,tab.index(last),last)
+            if prev=='__Field':
+                # identifier enum generated by serde's derive: __field0.., then __ignore / __other
+                mf=re.match(r'^__field(\d+)$',last)
+                if mf: return Agg('__Field',fields,int(mf.group(1)),last)
+                return Agg('__Field',fields,self.derive_field_count(path),last)
             if 'derp' in parts and prev=='Error': return Agg('derp::Error',fields,self.enums['derp::Error'].index(last),last)
             if prev in self.enums and last in self.enums[prev]:
                 return Agg(prev,fields,self.enums[prev].index(last),last)
@@ -608,6 +628,22 @@ class Engine:
             owners=[en for en,vs in self.enums.items() if last in vs and '::' not in en]
             if len(owners)==1: return Agg(owners[0],fields,self.enums[owners[0]].index(last),last)
         return Agg(self.src.qualify(last,key),fields)
+
+    def derive_field_count(self,path):
+        """number of __fieldN variants of the identifier enum of the derive named in `path` (read off the MIR of that derive)"""
+        m=re.search(r"for ([A-Za-z_:0-9]+)>",path)
+        key=m.group(1) if m else path
+        if key in self.const_cache: return self.const_cache[key]
+        tyn=self.src.qualify(last_ident(key),key)
+        c=self.impl_index.get(('Deserialize',tyn,'deserialize'),[])
+        n=0
+        if c:
+            prefix=c[0].name.rsplit('::deserialize',1)[0]
+            for b in self.bodies:
+                if b.name.startswith(prefix):
+                    for k in re.findall(r"__Field(?:::<[^>]*>)?::__field(\d+)",getattr(b,'raw','') or ''): n=max(n,int(k)+1)
+        self.const_cache[key]=n
+        return n
 
     def unop(self,op,a):
         if op=='Not':
